@@ -637,21 +637,37 @@ func runC20(p *Prog, r *Report, tier string) {
 				}
 				return true
 			})
+			if !okPrint && add != nil && len(c.Body) > 0 {
+				// value form: the case only produces the value (assigned, returned by a helper spliced back in place) and one
+				// print after the switch writes it next to the element's name
+				okPrint = caseValueIsRendered(add, c.Body[0].Pos(), c.Body[len(c.Body)-1].End())
+			}
 			r.Check(okPrint, "R-EXHAUST.render", "cmd/collector.addIPFIXMessage: case "+strings.Join(c.Labels, ",")+" renders name and value", p.pos(c.Pos), "Fprintf(&buf, ..., elem.Name, <value>)",
 				"the case does not write the element's name and value into the rendered entry", false)
 		}
 	}
 	nloops, nbad := 0, 0
 	ast.Inspect(fd.Body, func(n ast.Node) bool {
-		rg, ok := n.(*ast.RangeStmt)
-		if !ok {
+		var rg *ast.RangeStmt
+		switch l := n.(type) {
+		case *ast.RangeStmt:
+			rg = l
+		case *ast.ForStmt:
+			// an index loop over the same list: treated like the range form (only its body matters below)
+			if l.Cond == nil {
+				return true
+			}
+			rg = &ast.RangeStmt{For: l.For, Body: l.Body}
+		default:
 			return true
 		}
 		nloops++
 		ast.Inspect(rg.Body, func(m ast.Node) bool {
 			switch x := m.(type) {
 			case *ast.BranchStmt:
-				if x.Tok == token.CONTINUE || x.Tok == token.GOTO || (x.Tok == token.BREAK && x.Label != nil) {
+				if x.Tok == token.GOTO && x.Label != nil && labelInside(rg.Body, x.Label.Name) {
+					// a forward jump to a label of the same iteration (the form a spliced helper's return takes)
+				} else if x.Tok == token.CONTINUE || x.Tok == token.GOTO || (x.Tok == token.BREAK && x.Label != nil) {
 					nbad++
 				}
 				if x.Tok == token.BREAK && x.Label == nil {
@@ -959,4 +975,79 @@ func valueOnPath(s *absState, v ssa.Value) bool {
 		}
 	}
 	return false
+}
+
+// caseValueIsRendered: some value produced between the source positions lo and hi of fn (an accessor call on the
+// element, or the error made for an unsupported type) is in the backward slice of a fmt.Fprint* call that writes into a
+// local buffer and whose operands also contain a load of the information element's Name.
+func caseValueIsRendered(fn *ssa.Function, lo, hi token.Pos) bool {
+	var cands []ssa.Value
+	var prints []*ssa.Call
+	for _, f := range withClosures(fn) {
+		eachInstr(f, func(in ssa.Instruction) {
+			c, ok := in.(*ssa.Call)
+			if !ok {
+				return
+			}
+			name := calleeName(&c.Call)
+			if strings.HasPrefix(name, "fmt.Fprint") && len(c.Call.Args) >= 2 {
+				if _, ok := stripChange(c.Call.Args[0]).(*ssa.Alloc); ok {
+					prints = append(prints, c)
+				}
+				return
+			}
+			if c.Pos() < lo || c.Pos() > hi {
+				return
+			}
+			if c.Call.IsInvoke() && strings.HasPrefix(c.Call.Method.Name(), "Get") && strings.HasSuffix(c.Call.Method.Name(), "Value") &&
+				strings.HasSuffix(typeName(c.Call.Value.Type()), "InfoElementWithValue") {
+				cands = append(cands, c)
+			} else if name == "fmt.Errorf" || name == "errors.New" {
+				cands = append(cands, c)
+			}
+		})
+	}
+	for _, pr := range prints {
+		hasName := false
+		in := map[ssa.Value]bool{}
+		for _, a := range pr.Call.Args[1:] {
+			for _, v := range backwardSlice(a, 400) {
+				in[v] = true
+				if _, fname, _, ok := fieldOf(v); ok && fname == "Name" {
+					hasName = true
+				}
+			}
+		}
+		if !hasName {
+			continue
+		}
+		for _, c := range cands {
+			if in[c] {
+				return true
+			}
+		}
+	}
+	return false
+}
+
+// labelInside: a labeled statement named name is part of body, after no enclosing loop of its own (so a jump to it
+// from inside body stays in the current iteration of the loop whose body this is).
+func labelInside(body *ast.BlockStmt, name string) bool {
+	found := false
+	var walk func(n ast.Node, inner bool)
+	walk = func(n ast.Node, inner bool) {
+		ast.Inspect(n, func(m ast.Node) bool {
+			switch x := m.(type) {
+			case *ast.FuncLit:
+				return false
+			case *ast.LabeledStmt:
+				if x.Label.Name == name {
+					found = true
+				}
+			}
+			return true
+		})
+	}
+	walk(body, false)
+	return found
 }
